@@ -958,4 +958,380 @@ mutual
           exact ⟨.comma :: a ++ b, by simp [litElems, ha, hb]⟩
 end
 
+/-! ### `f(?)` with a value = `f(<literal of the value>)` -/
+
+theorem litElems_length_pos : ∀ (vs : GoVals) (toks : List Tok), litElems vs = some toks → 1 ≤ toks.length
+  | .nil, toks, h => by simp [litElems] at h; subst h; simp
+  | .cons v vs, toks, h => by
+    simp only [litElems] at h
+    split at h
+    · simp at h; subst h; simp
+    · simp at h
+
+theorem litToks_length_pos (v : GoVal) (toks : List Tok) (h : litToks v = some toks) : 1 ≤ toks.length := by
+  have := litToks_head v toks h
+  cases toks with
+  | nil => simp [LitHead] at this
+  | cons _ _ => simp
+
+mutual
+  theorem need_le : ∀ (v : GoVal) (toks : List Tok), litToks v = some toks → need v ≤ toks.length + 1
+    | .int _ x, toks, h => by simp [litToks] at h; subst h; simp [need]; split <;> simp
+    | .float b, toks, h => by simp [litToks] at h; subst h; simp [need]; split <;> simp
+    | .str s, toks, h => by simp [litToks] at h; subst h; simp [need]
+    | .slice .nil, toks, h => by simp [litToks] at h; subst h; simp [need, needTail]
+    | .slice (.cons v vs), toks, h => by
+      simp only [litToks] at h
+      split at h
+      · rename_i a b ha hb
+        simp at h; subst h
+        have h1 := need_le v a ha
+        have h2 := needTail_le vs b hb
+        have h3 := litElems_length_pos vs b hb
+        simp only [need, needTail, List.length_cons, List.length_append]
+        omega
+      · simp at h
+    | .uint _, _, h => by simp [litToks] at h
+    | .nil, _, h => by simp [litToks] at h
+    | .other, _, h => by simp [litToks] at h
+  theorem needTail_le : ∀ (vs : GoVals) (toks : List Tok), litElems vs = some toks → needTail vs ≤ toks.length
+    | .nil, toks, h => by simp [litElems] at h; subst h; simp [needTail]
+    | .cons v vs, toks, h => by
+      simp only [litElems] at h
+      split at h
+      · rename_i a b ha hb
+        simp at h; subst h
+        have h1 := need_le v a ha
+        have h2 := needTail_le vs b hb
+        have h3 := litElems_length_pos vs b hb
+        simp only [needTail, List.length_cons, List.length_append]
+        omega
+      · simp at h
+end
+
+/-- `f(?)` with the value as argument -/
+theorem query_arg (dq : DQ) (f : String) (v : GoVal) (t : Term) (ht : termOf dq v = .ok t) :
+    query dq [.name f, .openCT, .name "?", .close, .end_] [v] = .ok (.app f (.cons t .nil)) := by
+  by_cases hf : f = "-"
+  · subst hf
+    simp [query, setPlaceholder, ht, parseTop, term0, term0Atom, placeholderStep, listTail, Args.ofList]
+  · simp [query, setPlaceholder, ht, parseTop, term0, term0Atom, placeholderStep, listTail, Args.ofList, hf]
+
+/-- `f(<literal>)` without placeholders -/
+theorem parse_literal_arg (dq : DQ) (f : String) (v : GoVal) (t : Term) (toks : List Tok)
+    (hw : GoVal.wf v = true) (ht : termOf dq v = .ok t) (hl : litToks v = some toks) :
+    parseTop ⟨dq, none⟩ ([.name f, .openCT] ++ toks ++ [.close, .end_]) [] = .ok (.app f (.cons t .nil)) := by
+  have hn := need_le v toks hl
+  have hfuel : ∃ k, 2 * (([Tok.name f, Tok.openCT] ++ toks ++ [Tok.close, Tok.end_] : List Tok)).length + 2 = k + 3 ∧ need v ≤ k + 1 := by
+    refine ⟨2 * toks.length + 7, ?_, by omega⟩
+    simp only [List.length_append, List.length_cons, List.length_nil]; omega
+  obtain ⟨k, hk, hkn⟩ := hfuel
+  have hread := read_literal dq v t toks hw ht hl (k + 1) hkn [.close, .end_] [] (by simp [Follows])
+  unfold parseTop
+  rw [hk]
+  simp only [List.cons_append, List.nil_append, List.append_assoc, term0]
+  rw [term0Atom_eq]
+  by_cases hf : f = "-"
+  · subst hf
+    simp [contF, hread, listTail, Args.ofList]
+  · simp [hf, contF, hread, listTail, Args.ofList]
+
+
+/-! ### fewer arguments than placeholders: "not enough arguments" -/
+
+/-- outcome of re-running a successful step with the queue cut short by `ext`:
+    the same result (the cut part was not needed), or "not enough arguments" -/
+def Cut {α : Type} (ext : List Term) (run : List Term → Except PErr (α × PState)) (q : List Term) (T : α) (st' : PState) : Prop :=
+  (∃ q', st'.args = q' ++ ext ∧ run q = .ok (T, ⟨st'.toks, q'⟩)) ∨ run q = .error .fewArgs
+
+def Trunc4 (cfg : Cfg) (ext : List Term) (fuel : Nat) : Prop :=
+  (∀ toks q T st', term0 cfg fuel ⟨toks, q ++ ext⟩ = .ok (T, st') → Cut ext (fun q => term0 cfg fuel ⟨toks, q⟩) q T st') ∧
+  (∀ toks q T st', openClose cfg fuel ⟨toks, q ++ ext⟩ = .ok (T, st') → Cut ext (fun q => openClose cfg fuel ⟨toks, q⟩) q T st') ∧
+  (∀ a toks q T st', term0Atom cfg fuel a ⟨toks, q ++ ext⟩ = .ok (T, st') →
+    Cut ext (fun q => term0Atom cfg fuel a ⟨toks, q⟩) q T st') ∧
+  (∀ toks q Ts st', listTail cfg fuel ⟨toks, q ++ ext⟩ = .ok (Ts, st') → Cut ext (fun q => listTail cfg fuel ⟨toks, q⟩) q Ts st')
+
+theorem placeholderStep_cut (cfg : Cfg) (ext : List Term) (a : String) (toks : List Tok) (q : List Term) (T : Term)
+    (st' : PState) (h : placeholderStep cfg (.atom a) ⟨toks, q ++ ext⟩ = .ok (T, st')) :
+    Cut ext (fun q => placeholderStep cfg (.atom a) ⟨toks, q⟩) q T st' := by
+  unfold placeholderStep at h
+  unfold Cut placeholderStep
+  cases hp : cfg.ph with
+  | none =>
+    simp [hp] at h; obtain ⟨rfl, rfl⟩ := h
+    exact Or.inl ⟨q, rfl, by simp⟩
+  | some p =>
+    simp only [hp] at h ⊢
+    by_cases ha : a = p
+    · simp only [ha, if_true] at h ⊢
+      cases q with
+      | nil => exact Or.inr rfl
+      | cons x r =>
+        simp at h; obtain ⟨rfl, rfl⟩ := h
+        exact Or.inl ⟨r, rfl, rfl⟩
+    · simp [ha] at h; obtain ⟨rfl, rfl⟩ := h
+      exact Or.inl ⟨q, rfl, by simp [ha]⟩
+
+theorem integer_cut (ext : List Term) (neg : Bool) (n : Nat) (toks : List Tok) (q : List Term) (T : Term) (st' : PState)
+    (h : ((integer neg n).map fun t => (t, (⟨toks, q ++ ext⟩ : PState))) = .ok (T, st')) :
+    Cut ext (fun q => (integer neg n).map fun t => (t, (⟨toks, q⟩ : PState))) q T st' := by
+  cases hi : integer neg n with
+  | error e => simp [hi, Except.map] at h
+  | ok t =>
+    simp [hi, Except.map] at h; obtain ⟨rfl, rfl⟩ := h
+    exact Or.inl ⟨q, rfl, by simp [Except.map]⟩
+
+theorem listTail_cut (cfg : Cfg) (ext : List Term) (fuel : Nat) (ih : Trunc4 cfg ext fuel) (toks : List Tok)
+    (q : List Term) (Ts : List Term) (st' : PState)
+    (h : listTail cfg (fuel + 1) ⟨toks, q ++ ext⟩ = .ok (Ts, st')) :
+    Cut ext (fun q => listTail cfg (fuel + 1) ⟨toks, q⟩) q Ts st' := by
+  obtain ⟨ih0, _, _, ihL⟩ := ih
+  simp only [listTail] at h
+  unfold Cut
+  simp only [listTail]
+  split at h
+  · rename_i r
+    cases hr : term0 cfg fuel ⟨r, q ++ ext⟩ with
+    | error e => simp [hr] at h
+    | ok v =>
+      obtain ⟨x, st1⟩ := v
+      simp only [hr] at h
+      rcases ih0 r q x st1 hr with ⟨q1, hq1, h1⟩ | h1
+      · simp only at h1
+        rw [h1]
+        cases hl : listTail cfg fuel st1 with
+        | error e => simp [hl] at h
+        | ok w =>
+          obtain ⟨xs, st2⟩ := w
+          simp only [hl] at h
+          simp at h; obtain ⟨rfl, rfl⟩ := h
+          have hst1 : st1 = ⟨st1.toks, q1 ++ ext⟩ := by rw [← hq1]
+          rw [hst1] at hl
+          rcases ihL st1.toks q1 xs st2 hl with ⟨q2, hq2, h2⟩ | h2
+          · simp only at h2
+            exact Or.inl ⟨q2, hq2, by simp [h2]⟩
+          · simp only at h2
+            exact Or.inr (by simp [h2])
+      · simp only at h1
+        exact Or.inr (by simp [h1])
+  · simp at h; obtain ⟨rfl, rfl⟩ := h
+    exact Or.inl ⟨q, rfl, rfl⟩
+
+theorem openClose_cut (cfg : Cfg) (ext : List Term) (fuel : Nat) (ih : Trunc4 cfg ext fuel) (toks : List Tok)
+    (q : List Term) (T : Term) (st' : PState)
+    (h : openClose cfg (fuel + 1) ⟨toks, q ++ ext⟩ = .ok (T, st')) :
+    Cut ext (fun q => openClose cfg (fuel + 1) ⟨toks, q⟩) q T st' := by
+  obtain ⟨ih0, _, _, _⟩ := ih
+  simp only [openClose] at h
+  unfold Cut
+  simp only [openClose]
+  cases hr : term0 cfg fuel ⟨toks, q ++ ext⟩ with
+  | error e => simp [hr] at h
+  | ok v =>
+    obtain ⟨t, st1⟩ := v
+    simp only [hr] at h
+    rcases ih0 toks q t st1 hr with ⟨q1, hq1, h1⟩ | h1
+    · simp only at h1
+      rw [h1]
+      split at h
+      · rename_i r heq
+        simp at h; obtain ⟨rfl, rfl⟩ := h
+        exact Or.inl ⟨q1, hq1, by simp [heq]⟩
+      · simp at h
+    · simp only at h1
+      exact Or.inr (by simp [h1])
+
+theorem cont_cut (cfg : Cfg) (ext : List Term) (fuel : Nat) (ih : Trunc4 cfg ext fuel) (a : String) (toks : List Tok)
+    (q : List Term) (T : Term) (st' : PState) (h : contF cfg fuel a ⟨toks, q ++ ext⟩ = .ok (T, st')) :
+    Cut ext (fun q => contF cfg fuel a ⟨toks, q⟩) q T st' := by
+  obtain ⟨ih0, _, _, ihL⟩ := ih
+  simp only [contF] at h
+  split at h
+  · rename_i r
+    unfold Cut
+    simp only [contF]
+    cases hr : term0 cfg fuel ⟨r, q ++ ext⟩ with
+    | error e => simp [hr] at h
+    | ok v =>
+      obtain ⟨x, st1⟩ := v
+      simp only [hr] at h
+      rcases ih0 r q x st1 hr with ⟨q1, hq1, h1⟩ | h1
+      · simp only at h1
+        rw [h1]
+        cases hl : listTail cfg fuel st1 with
+        | error e => simp [hl] at h
+        | ok w =>
+          obtain ⟨xs, st2⟩ := w
+          simp only [hl] at h
+          have hst1 : st1 = ⟨st1.toks, q1 ++ ext⟩ := by rw [← hq1]
+          rw [hst1] at hl
+          rcases ihL st1.toks q1 xs st2 hl with ⟨q2, hq2, h2⟩ | h2
+          · simp only at h2
+            simp only [h2]
+            split at h
+            · rename_i r' heq
+              simp at h; obtain ⟨rfl, rfl⟩ := h
+              exact Or.inl ⟨q2, hq2, by simp [heq]⟩
+            · simp at h
+          · simp only at h2
+            exact Or.inr (by simp [h2])
+      · simp only at h1
+        exact Or.inr (by simp [h1])
+  · rename_i hne
+    have hc := placeholderStep_cut cfg ext a toks q T st' h
+    unfold Cut at hc ⊢
+    have heq : ∀ q', contF cfg fuel a ⟨toks, q'⟩ = placeholderStep cfg (.atom a) ⟨toks, q'⟩ := by
+      intro q'
+      simp only [contF]
+    simpa [heq] using hc
+
+theorem term0Atom_cut (cfg : Cfg) (ext : List Term) (fuel : Nat) (ih : Trunc4 cfg ext fuel) (a : String)
+    (toks : List Tok) (q : List Term) (T : Term) (st' : PState)
+    (h : term0Atom cfg (fuel + 1) a ⟨toks, q ++ ext⟩ = .ok (T, st')) :
+    Cut ext (fun q => term0Atom cfg (fuel + 1) a ⟨toks, q⟩) q T st' := by
+  rw [term0Atom_eq] at h
+  have hc := cont_cut cfg ext fuel ih a toks q T st'
+  unfold Cut at hc ⊢
+  simp only [term0Atom_eq]
+  by_cases hm : a = "-"
+  · simp only [hm, if_true] at h hc ⊢
+    split at h
+    · rename_i n r
+      have := integer_cut ext true n r q T st' h
+      unfold Cut at this
+      exact this
+    · simp at h; obtain ⟨rfl, rfl⟩ := h
+      exact Or.inl ⟨q, rfl, rfl⟩
+    · exact hc h
+  · simp only [hm, if_false] at h ⊢
+    exact hc h
+
+theorem term0_cut (cfg : Cfg) (ext : List Term) (fuel : Nat) (ih : Trunc4 cfg ext fuel) (toks : List Tok)
+    (q : List Term) (T : Term) (st' : PState)
+    (h : term0 cfg (fuel + 1) ⟨toks, q ++ ext⟩ = .ok (T, st')) :
+    Cut ext (fun q => term0 cfg (fuel + 1) ⟨toks, q⟩) q T st' := by
+  obtain ⟨ih0, ihO, ihA, ihL⟩ := ih
+  have triv : ∀ (r : List Tok) (T : Term), Cut ext (fun q => (.ok (T, ⟨r, q⟩) : PRes)) q T ⟨r, q ++ ext⟩ :=
+    fun r T => Or.inl ⟨q, rfl, rfl⟩
+  cases toks with
+  | nil => simp [term0] at h
+  | cons x r =>
+    cases x with
+    | name a => simp only [term0] at h; have := ihA a r q T st' h; unfold Cut at this ⊢; simpa [term0] using this
+    | var n => simp [term0] at h; obtain ⟨rfl, rfl⟩ := h; have := triv r (.var n); unfold Cut at this ⊢; simp [term0]
+    | int n => simp only [term0] at h; have := integer_cut ext false n r q T st' h; unfold Cut at this ⊢; simpa [term0] using this
+    | float b => simp [term0] at h; obtain ⟨rfl, rfl⟩ := h; have := triv r (.flt b); unfold Cut at this ⊢; simp [term0]
+    | dq body =>
+      simp only [term0] at h
+      unfold Cut
+      simp only [term0]
+      cases hq : cfg.dq with
+      | chars => simp [hq] at h ⊢; obtain ⟨rfl, rfl⟩ := h; simp
+      | codes => simp [hq] at h ⊢; obtain ⟨rfl, rfl⟩ := h; simp
+      | atom => simp only [hq] at h ⊢; have := ihA _ r q T st' h; unfold Cut at this; exact this
+    | «open» => simp only [term0] at h; have := ihO r q T st' h; unfold Cut at this ⊢; simpa [term0] using this
+    | openCT => simp only [term0] at h; have := ihO r q T st' h; unfold Cut at this ⊢; simpa [term0] using this
+    | close => simp [term0] at h
+    | closeList => simp [term0] at h
+    | comma => simp [term0] at h
+    | bar => simp [term0] at h
+    | end_ => simp [term0] at h
+    | openList =>
+      simp only [term0] at h
+      unfold Cut
+      simp only [term0]
+      split at h
+      · rename_i r'
+        have := ihA "[]" r' q T st' h; unfold Cut at this; exact this
+      · cases hr : term0 cfg fuel ⟨r, q ++ ext⟩ with
+        | error e => simp [hr] at h
+        | ok v =>
+          obtain ⟨a, st1⟩ := v
+          simp only [hr] at h
+          rcases ih0 r q a st1 hr with ⟨q1, hq1, h1⟩ | h1
+          · simp only at h1
+            rw [h1]
+            cases hl : listTail cfg fuel st1 with
+            | error e => simp [hl] at h
+            | ok w =>
+              obtain ⟨xs, st2⟩ := w
+              simp only [hl] at h
+              have hst1 : st1 = ⟨st1.toks, q1 ++ ext⟩ := by rw [← hq1]
+              rw [hst1] at hl
+              rcases ihL st1.toks q1 xs st2 hl with ⟨q2, hq2, h2⟩ | h2
+              · simp only at h2
+                simp only [h2]
+                split at h
+                · rename_i r' heq
+                  simp at h; obtain ⟨rfl, rfl⟩ := h
+                  exact Or.inl ⟨q2, hq2, by simp [heq]⟩
+                · rename_i r' heq
+                  cases ht : term0 cfg fuel ⟨r', st2.args⟩ with
+                  | error e => simp [ht] at h
+                  | ok u =>
+                    obtain ⟨tl, st3⟩ := u
+                    simp only [ht] at h
+                    rw [hq2] at ht
+                    rcases ih0 r' q2 tl st3 ht with ⟨q3, hq3, h3⟩ | h3
+                    · simp only at h3
+                      simp only [h3]
+                      split at h
+                      · rename_i r'' heq'
+                        simp at h; obtain ⟨rfl, rfl⟩ := h
+                        exact Or.inl ⟨q3, hq3, by simp [heq']⟩
+                      · simp at h
+                    · simp only at h3
+                      exact Or.inr (by simp [h3])
+                · simp at h
+              · simp only at h2
+                exact Or.inr (by simp [h2])
+          · simp only at h1
+            exact Or.inr (by simp [h1])
+
+theorem trunc4 (cfg : Cfg) (ext : List Term) : ∀ fuel, Trunc4 cfg ext fuel
+  | 0 => ⟨fun _ _ _ _ h => by simp [term0] at h, fun _ _ _ _ h => by simp [openClose] at h,
+          fun _ _ _ _ _ h => by simp [term0Atom] at h, fun _ _ _ _ h => by simp [listTail] at h⟩
+  | fuel + 1 =>
+    have ih := trunc4 cfg ext fuel
+    ⟨term0_cut cfg ext fuel ih, openClose_cut cfg ext fuel ih, term0Atom_cut cfg ext fuel ih,
+     listTail_cut cfg ext fuel ih⟩
+
+/-- if a text parses with `args ++ ext`, `ext ≠ []`, then with `args` alone it is "not enough arguments" -/
+theorem parseTop_few (cfg : Cfg) (toks : List Tok) (args ext : List Term) (t : Term)
+    (h : parseTop cfg toks (args ++ ext) = .ok t) (hne : ext ≠ []) :
+    parseTop cfg toks args = .error .fewArgs := by
+  unfold parseTop at h ⊢
+  cases hr : term0 cfg (2 * toks.length + 2) ⟨toks, args ++ ext⟩ with
+  | error e => simp [hr] at h
+  | ok v =>
+    obtain ⟨T, st⟩ := v
+    simp only [hr] at h
+    rcases (trunc4 cfg ext _).1 toks args T st hr with ⟨q', hq', _⟩ | h1
+    · split at h
+      · by_cases ha : st.args = []
+        · rw [ha] at hq'
+          have : ext = [] := by
+            have := congrArg List.length hq'
+            simp at this
+            exact List.eq_nil_of_length_eq_zero (by omega)
+          exact absurd this hne
+        · simp [ha] at h
+      · simp at h
+    · simp only at h1
+      rw [h1]
+
+theorem parseTop_shorter (cfg : Cfg) (toks : List Tok) (args args' : List Term) (t : Term)
+    (h : parseTop cfg toks args = .ok t) (hl : args'.length < args.length) :
+    parseTop cfg toks args' = .error .fewArgs := by
+  rw [parseTop_template] at h
+  cases hT : parseTop cfg toks (holes args.length) with
+  | error e => simp [hT, Except.map] at h
+  | ok T =>
+    obtain ⟨k, hk⟩ : ∃ k, args.length = args'.length + (k + 1) := ⟨args.length - args'.length - 1, by omega⟩
+    rw [hk, holes_add] at hT
+    have hm := parseTop_few cfg toks (holes args'.length) _ T hT (by simp)
+    rw [parseTop_template cfg toks args', hm]
+    rfl
+
+
 end PrologVerif.Api
